@@ -58,6 +58,34 @@ def _digest(prot):
     return out
 
 
+_SALT = 0
+
+
+def _deterministic_addresses():
+    """environment model of object addresses: PVGNode and TVGEdge define no __hash__, so Python hashes them by address and
+    every set of nodes / edges iterates in an order that changes from process to process.  Inside harness processes the
+    hash becomes a function of the creation order, so graph construction is the same in the symbolic run and in every
+    replay (a defect that shows only for some orders is then either always or never visible for a given salt)."""
+    from moPepGen.svgraph.PVGNode import PVGNode
+    from moPepGen.svgraph.TVGEdge import TVGEdge
+    for cls in (PVGNode, TVGEdge):
+        if getattr(cls, '_mpgv_patched', False):
+            continue
+        counter = itertools.count(1)
+        orig_init = cls.__init__
+
+        def init(self, *a, _orig=orig_init, _counter=counter, **k):
+            self._mpgv_serial = next(_counter)
+            _orig(self, *a, **k)
+
+        def node_hash(self):
+            return ((getattr(self, '_mpgv_serial', 0) * 2654435761) ^ _SALT) & 0x3FFFFFFF
+
+        cls.__init__ = init
+        cls.__hash__ = node_hash
+        cls._mpgv_patched = True
+
+
 class _Lazy:
     """build a case on first use, outside the symbolic tracer: a failure of the (concrete) graph construction then
     surfaces inside the condition that needs it - and is reported for that property - instead of breaking the import
@@ -71,6 +99,7 @@ class _Lazy:
         if self.__dict__['_obj'] is None:
             from crosshair.tracers import NoTracing
             with NoTracing():
+                _deterministic_addresses()
                 self.__dict__['_obj'] = self.__dict__['_build']()
         return getattr(self.__dict__['_obj'], name)
 
@@ -251,6 +280,16 @@ _BC = ('ONE concrete transcript (34 codons) with 3 concrete SNVs inside one tryp
 c02_traversal_limits_c0 = _mk('C02', CASE_C, 'c02_traversal_limits_c0', 0, _BC, ('quick', 'thorough'))
 c02_traversal_limits_c1 = _mk('C02', CASE_C, 'c02_traversal_limits_c1', 1, _BC, ('quick', 'thorough'))
 c02_traversal_limits_c2 = _mk('C02', CASE_C, 'c02_traversal_limits_c2', 2, _BC, ('thorough',))
+
+# three frameshifting deletions, cleavage graph built with --min-nodes-to-collapse 2 --naa-to-collapse 2: nodes that are
+# already C-terminally pop-collapsed get split again (found by comparing candidate inputs against seed C02a)
+CASE_D = _Lazy(lambda: _Case('MASTEDLVKAADEGLVSTKGGHLRVVLIDEFYAK',
+                             [(16, 'ACCT', 'A'), (44, 'GG', 'G'), (52, 'CTAA', 'C')], collapse=(2, 2)))
+_BD = ('ONE concrete transcript (34 codons) with 3 concrete frameshifting deletions, cleavage graph built with '
+       '--min-nodes-to-collapse 2 --naa-to-collapse 2 (pop-collapsed nodes are split again); miscleavage = %s, min_length and '
+       'max_length UNBOUNDED symbolic integers')
+c02_traversal_limits_d0 = _mk('C02', CASE_D, 'c02_traversal_limits_d0', 0, _BD, ('quick', 'thorough'))
+c02_traversal_limits_d1 = _mk('C02', CASE_D, 'c02_traversal_limits_d1', 1, _BD, ('thorough',))
 
 
 def _set_order(case, flags):
